@@ -38,7 +38,19 @@ def conclude(agg):
 
 
 def val(rng):
-    return f'{rng.randrange(0, 5000) / 1000:.3f}'
+    """a delay value as SDF text: mostly three decimals as tools write them, but also more digits, tiny and large magnitudes, integers and '.5' forms"""
+    r = rng.random()
+    if r < 0.6:
+        return f'{rng.randrange(0, 5000) / 1000:.3f}'
+    if r < 0.75:
+        return f'{rng.randrange(0, 500000) / 100000:.5f}'
+    if r < 0.85:
+        return f'{rng.randrange(1, 999) / 1000000:.6f}'
+    if r < 0.93:
+        return f'{rng.randrange(0, 99999999) / 1000:.3f}'
+    if r < 0.97:
+        return str(rng.randrange(0, 50))
+    return f'{rng.randrange(1, 999) / 1000:.3f}'[1:]
 
 
 def triple(rng, stats):
